@@ -3,7 +3,8 @@
    chunking, the members of every map in ANY order, extra members with unknown keys (in the int64 range) carrying ARBITRARY
    well-formed items (tagged, floating-point, deeply nested ...) - denotes the value v under descriptor t; the value of a map is
    defined from its entries by key lookup.  Only statements here. *)
-Require Import Base Cbor DecoderModel DecoderProofs Schema SchemaProofs Reencode Permutation Properties_C09.
+Require Import Base Cbor DecoderModel DecoderProofs Schema SchemaProofs Reencode Permutation Properties_C09
+               Block Exporter E2ESpec BlockRead FileProofs ReencodeFile.
 Local Open Scope N_scope.
 
 (* the reader returns the denoted value for EVERY encoding of it, for every structure of the format (preamble, parameters,
@@ -42,6 +43,36 @@ Theorem C08_unknown_members : forall es1 e es2 r, e_upd e = None ->
   fold_left apply_e (es1 ++ e :: es2) r = fold_left apply_e (es1 ++ es2) r.
 Proof. exact fold_apply_unknown. Qed.
 Print Assumptions C08_unknown_members.
+
+(* the writer's canonical tree is itself one of the encodings of the value (C09 is the special case of C08 for the library's own output) *)
+Theorem C08_canonical_is_an_encoding : forall t, In t all_descriptors -> forall v, has_ty t v -> enc_of t (tree_of t v) v.
+Proof.
+  intros t Hin v Ht. assert (Hd : desc_ok t = true). { pose proof C09_descriptors_ok as H. rewrite forallb_forall in H. apply H. exact Hin. }
+  apply (proj1 canonical_enc); auto.
+Qed.
+Print Assumptions C08_canonical_is_an_encoding.
+
+(* WHOLE FILES.  For every re-encoding of a file — the outer array and the block array each definite (any head width) or indefinite,
+   the type id a definite (any width) or chunked text string, the preamble and every block ANY encoding denoting the same value — the
+   file reader returns the same preamble and the same blocks (blocks satisfying the builder's invariants and referring to parameter
+   sets of the preamble) *)
+Theorem C08_file_invariance : forall pre bs oi tid xp bi xbs g,
+  tid_ok tid -> enc_of FilePreamble xp pre ->
+  Forall2 (fun xb b => enc_of Schema.Block xb (blk_val b)) xbs bs ->
+  Forall (blk_params_ok (params_of pre)) bs -> Forall good_blk bs ->
+  (forall w, oi = Some w -> wfits w 3) -> (forall w, bi = Some w -> wfits w (N.of_nat (length xbs))) ->
+  (length (ser (file_item oi tid xp bi xbs)) < g)%nat ->
+  fst (run (read_file g) (ser (file_item oi tid xp bi xbs))) = inl (pre, map rb_of bs).
+Proof. exact read_file_reencoded. Qed.
+Print Assumptions C08_file_invariance.
+(* ... and the exporter's own output is one member of that family *)
+Theorem C08_exporter_output_in_family : forall pre bs, bs <> [] -> typed_pre pre -> Forall typed_blk bs ->
+  let xbs := map (fun b => tree_of Schema.Block (blk_val b)) bs in
+  file_bytes pre bs = ser (file_item (Some W0) (IStr true W0 cdns_text) (tree_of FilePreamble pre) None xbs) /\
+  tid_ok (IStr true W0 cdns_text) /\ enc_of FilePreamble (tree_of FilePreamble pre) pre /\
+  Forall2 (fun xb b => enc_of Schema.Block xb (blk_val b)) xbs bs.
+Proof. exact exporter_output_in_family. Qed.
+Print Assumptions C08_exporter_output_in_family.
 
 (* KNOWN FINDING (keys outside the int64 range): read_integer wraps them, so 2^64-1 is taken for key -1 and -2^64 for key 0;
    the relation therefore restricts keys to the int64 range, and the wrap is exhibited here *)
